@@ -17,6 +17,25 @@ Definition writer_ok (o : option script) : bool :=
 Lemma write_accepted : writer_ok (write_script UntypedEntry_write) = true.
 Proof. vm_compute. reflexivity. Qed.
 
+(* the replaced value leaves `write` alive: under the write lock there is the swap, the id bump and
+   the flag, nothing else -- in particular no drop, so no user destructor runs while the lock is
+   held (a destructor may read its own handle) *)
+Definition write_locked_block_wf (f : fn_def) : bool :=
+  match fn_body f with
+  | [ESemi (EMacro "assert" _);
+     EIf (ELet (PTupleStruct ["Some"] [PIdent d None]) (ERef (EField (EPath ["self"]) "dynamic")))
+       [EBlock [ELetS (PIdent _ None) (Some (EMethod (EField (EPath [d1]) "lock") "write" [])) None;
+                ESemi (ECall (EPath ["swap_any"]) [_; _]);
+                ESemi (EMethod (EField (EPath [d2]) "reload") "increment" []);
+                ESemi (EMethod (EField (EPath [d3]) "reload_global") "store" [_; _])];
+        ESemi (EReturn None)] None;
+     ESemi (ECall (EPath ["wrong_handle_type"]) [])] =>
+      String.eqb d d1 && String.eqb d d2 && String.eqb d d3
+  | _ => false
+  end.
+Lemma write_drops_nothing_under_the_lock : write_locked_block_wf UntypedEntry_write = true.
+Proof. vm_compute. reflexivity. Qed.
+
 Lemma read_takes_lock : read_wf EntryStorage_read = true.
 Proof. vm_compute. reflexivity. Qed.
 
